@@ -10,7 +10,8 @@
    Vocabulary (Proofs/C01*.v): consumed cfg pairs = the pairs the loop body ran on; step_events = what the step
    of one pair under one strategy writes; lab_eqb p j e = event e is labelled (p, j); count_at tr t p j m = number
    of events labelled (p, j) in mate file m of the target (t = true) / reject (t = false) sink; step_ok = the
-   accepted record list covers the target handle's files and the input tuple covers the reject handle's files. *)
+   accepted record list covers the target handle's files and each of those records can be serialised (no partial
+   write), the input tuple covers the reject handle's files; is_accept = accepted and written (counted as a yield). *)
 From Coq Require Import ZArith List Bool Sorted.
 Import ListNotations.
 From SCMO Require Import Lib.Val Model.C01 Proofs.C01 Proofs.C01_b Proofs.C01_c Proofs.C01_ex.
@@ -47,7 +48,8 @@ Theorem C01_partition_events : forall strats rejhdr cfg, c_legacy cfg = false ->
 Proof. exact partition_events. Qed.
 Print Assumptions C01_partition_events.
 
-(* ... by outcome class: accepted -> the strategy's records, to the demultiplexed output only; rejected or raised ->
+(* ... by outcome class: accepted (and every record write() touches can be serialised) -> the strategy's records, to the
+   demultiplexed output only; rejected or raised ->
    with a rejects handle one record per mate file whose text is header / ORIGINAL bases / plus / ORIGINAL qualities
    and whose header contains ;RR:<reason>, to the rejects output only; without a rejects handle nothing.
    (rejhdr contract: a formatted reject header contains the reason tag.) *)
@@ -58,7 +60,7 @@ Theorem C01_partition : forall strats rejhdr cfg, c_legacy cfg = false ->
   (p < length (consumed cfg pairs))%nat -> (j < length strats)%nat ->
   let evs := filter (lab_eqb p j) (res_trace (loader strats rejhdr cfg pairs)) in
   match nth j strats dflt (nth p pairs []) with
-  | Accept recs => evs = write_target cfg p j recs
+  | Accept recs => forallb a_ok (touched cfg recs) = true -> evs = write_target cfg p j recs
   | Reject why | Raise why =>
       if c_rejects cfg
       then exists ts, evs = write_reject cfg p j ts /\ Forall2 (reject_ok why) (nth p pairs []) ts
@@ -76,7 +78,7 @@ Theorem C01_exactly_once : forall strats rejhdr cfg, c_legacy cfg = false -> for
   step_ok cfg (nth p pairs []) (nth j strats dflt) ->
   (m < (if t then target_width cfg else c_nh cfg))%nat ->
   count_at (res_trace (loader strats rejhdr cfg pairs)) t p j m =
-  if Bool.eqb t (is_accept (nth j strats dflt (nth p pairs []))) && (t || c_rejects cfg) then 1%nat else 0%nat.
+  if Bool.eqb t (is_accept cfg (nth j strats dflt (nth p pairs []))) && (t || c_rejects cfg) then 1%nat else 0%nat.
 Proof. exact partition_count. Qed.
 Print Assumptions C01_exactly_once.
 
@@ -105,7 +107,7 @@ Print Assumptions C01_processed.
 (* strategyYields[j] = number of consumed pairs strategy j accepted -- no hypothesis about raising strategies *)
 Theorem C01_counters : forall strats rejhdr cfg, c_legacy cfg = false -> forall pairs j,
   res_crashed (loader strats rejhdr cfg pairs) = false -> (j < length strats)%nat ->
-  nth j (res_yields (loader strats rejhdr cfg pairs)) 0 = Z.of_nat (length (accepted_by strats j (consumed cfg pairs))).
+  nth j (res_yields (loader strats rejhdr cfg pairs)) 0 = Z.of_nat (length (accepted_by strats cfg j (consumed cfg pairs))).
 Proof. exact yields_count. Qed.
 Print Assumptions C01_counters.
 
@@ -158,6 +160,19 @@ Theorem C01_reject_crash_refuted :
     res_crashed res = true /\ filter (lab_eqb 1 0) (res_trace res) = [] /\ filter (lab_eqb 2 0) (res_trace res) = [].
 Proof. exact reject_crash_example. Qed.
 Print Assumptions C01_reject_crash_refuted.
+
+(* ---- the excluded case of step_ok: a partial write (R1 written, serialising R2 raises) puts the pair into BOTH outputs
+   and R1/R2 out of step; the correspondence check reports any partial write of the real code as a violation *)
+Theorem C01_partial_write_refuted :
+  exists strats rejhdr cfg pairs,
+    c_legacy cfg = false /\ c_rejects cfg = true /\
+    let res := loader strats rejhdr cfg pairs in
+    res_crashed res = false /\
+    count_at (res_trace res) true 0 0 0 = 1%nat /\ count_at (res_trace res) false 0 0 0 = 1%nat /\
+    length (file_events (res_trace res) true [] 0) = 1%nat /\ length (file_events (res_trace res) true [] 1) = 0%nat /\
+    res_yields res = [0].
+Proof. exact partial_write_refuted. Qed.
+Print Assumptions C01_partial_write_refuted.
 
 (* ---- non-vacuity: a run over accept / reject / raise satisfying every hypothesis above *)
 Example C01_example_run :
